@@ -19,7 +19,7 @@ META = {
     "assumptions": ["rename(2)/NamedTempFile::persist replace the destination atomically (POSIX)",
                     "NamedTempFile removes its file on drop (tempfile crate)",
                     "durability across power loss (fsync) is outside the statement's crash model"],
-    "claim": "Decides the structural argument for all-or-nothing: over all paths of both archive writers, everything they reach and every caller, the destination path is only mutated by one atomic, result-checked commit call that dominates every success exit, staged from a delete-on-drop temporary in the destination's directory. Complete for process death / I/O error given rename atomicity; does not explore crash points dynamically. Also: every buffering writer created in the pipeline is flushed with a checked result before a success exit; no short write is accepted. Wave 5: 'after the commit' means after its Ok arm; no unchecked partial I/O anywhere in the workspace. Wave 6: no Err return is reachable after the commit succeeded; callers reaching the destination through view conversions (as_ref/to_path_buf/clone) are followed. Wave 7: the Result of every writing step the writers reach is examined (no `let _x = write_..()`).",
+    "claim": "Decides the structural argument for all-or-nothing: over all paths of both archive writers, everything they reach and every caller, the destination path is only mutated by one atomic, result-checked commit call that dominates every success exit, staged from a delete-on-drop temporary in the destination's directory. Complete for process death / I/O error given rename atomicity; does not explore crash points dynamically. Also: every buffering writer created in the pipeline is flushed with a checked result before a success exit; no short write is accepted. Wave 5: 'after the commit' means after its Ok arm; no unchecked partial I/O anywhere in the workspace. Wave 6: no Err return is reachable after the commit succeeded; callers reaching the destination through view conversions (as_ref/to_path_buf/clone) are followed. Wave 7: the Result of every writing step the writers reach is examined (no `let _x = write_..()`). Wave 8: (no new rule; both wave-8 changes were reported at first contact).",
     "note": "Trusted: rustc MIR, resolved call graph (dyn calls expanded to local impls), POSIX rename atomicity, tempfile's delete-on-drop. Not covered: power-loss durability (no fsync).",
     "explanation": "Path rules over the MIR of the two archive writers and everything reachable from them, plus every caller: "
                    "the destination path is only ever touched by one atomic commit call that dominates all success exits.",
